@@ -51,6 +51,7 @@ structure State where
   preJoin : Nat → Bool            -- accepted before `join()` was called
   joinCalled : Bool
   joinReturned : Bool
+  live : List Nat := []            -- ghost: tasks whose increment of `_running` has not been undone yet
 
 def upd {α : Type} (f : Nat → α) (i : Nat) (v : α) : Nat → α := fun j => if j = i then v else f j
 
@@ -112,7 +113,8 @@ def stepNewThread (s : State) (t : Nat) : Ev → Option State
     else none
   | .inc old =>
     match s.npc t with
-    | .nSub id par => if old = s.cnt then some { s with npc := upd s.npc t (.nSpawn id par), cnt := s.cnt + 1 } else none
+    | .nSub id par =>
+      if old = s.cnt then some { s with npc := upd s.npc t (.nSpawn id par), cnt := s.cnt + 1, live := id :: s.live } else none
     | _ => none
   | .spawn _ =>
     match s.npc t with
@@ -138,7 +140,11 @@ def stepNewThread (s : State) (t : Nat) : Ev → Option State
     | _ => none
   | .dec old =>
     match s.npc t with
-    | .tDec _ => if old = s.cnt ∧ 0 < s.cnt then some { s with npc := upd s.npc t .tExit, cnt := s.cnt - 1 } else none
+    | .tDec id =>
+      -- the decrement undoes the increment `invoke` made for this very task (guard `id ∈ live`)
+      if old = s.cnt ∧ 0 < s.cnt ∧ id ∈ s.live then
+        some { s with npc := upd s.npc t .tExit, cnt := s.cnt - 1, live := s.live.erase id }
+      else none
     | _ => none
   | .exit =>
     match s.npc t with
